@@ -252,6 +252,8 @@ pub struct Exec<'a> {
     pub key_hist: BTreeMap<(KsIdx, Vec<u8>), Vec<KeyEvent>>,
     /// steps at which background work / compaction ran
     pub maint_steps: Vec<usize>,
+    /// C16: check option-dependent behaviour (rotation request threshold, kv separation)
+    pub check_option_behaviour: bool,
 }
 
 #[derive(Clone, Debug)]
@@ -293,6 +295,7 @@ impl<'a> Exec<'a> {
             reopened: false,
             key_hist: BTreeMap::new(),
             maint_steps: vec![],
+            check_option_behaviour: false,
         }
     }
 
@@ -534,7 +537,27 @@ impl<'a> Exec<'a> {
         match op {
             Op::Insert { ks, key, val } => {
                 let k = ks_or_skip!(*ks);
+                let pending_before = fjall::verif::pending_messages(&inst!().db);
                 let r = k.insert(&keys[*key as usize], val.bytes()).map_err(e2s);
+                if self.check_option_behaviour && r.is_ok() && cfg.workers == 0 {
+                    // the memtable size limit chosen at creation decides when a rotation is requested
+                    use fjall::AbstractTree;
+                    let limit = match cfg.opts[*ks as usize].max_memtable {
+                        0 => 64 * 1024 * 1024,
+                        n => n,
+                    };
+                    let size = k.tree.active_memtable().size();
+                    let requested = fjall::verif::pending_messages(&inst!().db) > pending_before;
+                    self.stats.inc("rotation_request_checks");
+                    if requested != (size > limit) {
+                        viol!(
+                            "options-in-force",
+                            "keyspace {:?} was created with max_memtable_size {limit}; after an insert the memtable holds {size} bytes and a rotation was {}requested",
+                            cfg.names[*ks as usize],
+                            if requested { "" } else { "not " }
+                        );
+                    }
+                }
                 self.write_result(op, r)
             }
             Op::Remove { ks, key } => {
@@ -1403,6 +1426,9 @@ impl<'a> Exec<'a> {
         let Some(k) = inst.k(ks) else { return Ok(()) };
         let got = fjall::verif::keyspace_option_rows(k);
         self.stats.inc("option_row_checks");
+        if self.check_option_behaviour && k.is_kv_separated() != self.cfg.opts[ks as usize].blob.is_some() {
+            viol!("options-in-force", "keyspace {:?}: is_kv_separated() = {} but it was created {} key-value separation", self.cfg.names[ks as usize], k.is_kv_separated(), if self.cfg.opts[ks as usize].blob.is_some() { "with" } else { "without" });
+        }
         if &got != want {
             let diff: Vec<String> = want
                 .iter()
